@@ -31,6 +31,8 @@ pub const VOCAB: &[&str] = &[
     "\u{a0}", "\u{200b}z", "\x1b[31mred\x1b[0m", "tab\there", "42", "_",
     // words may END in prefix characters (only a leading one is excluded)
     "pre-", "A-", "C++", "and/", "x*", "q>", "n#", "read/write", "1,5",
+    // words that START with punctuation other than the seven prefix characters
+    "\u{2022}", "\u{25e6}", "\u{2023}", "\u{2013}", "\u{2014}", "\u{b7}", "~", "=", "|", "\u{2192}", "@x", "$5",
 ];
 
 pub const PREFIX_INDENTS: &[&str] = &[
